@@ -161,7 +161,7 @@ func BartlettHannComplex(seq []complex128) []complex128 {
 //
 // The sequence weights are
 //
-//	w[k] = 25/46 - 21/46 * cos(2*π*k/(N-1)),
+//	w[k] = 0.54 - 0.46 * cos(2*π*k/(N-1)),
 //
 // for k=0,1,...,N-1 where N is the length of the window.
 //
